@@ -201,11 +201,11 @@ var ruleEntry = &Rule{
 						continue
 					}
 					var want bool
-					switch c.Call.StaticCallee() {
-					case fns["Match"]:
+					switch p.entryBehind(c.Call.StaticCallee(), fns) {
+					case "Match":
 						want = true
 						nM++
-					case fns["Exists"]:
+					case "Exists":
 						want = false
 						nE++
 					default:
@@ -269,6 +269,52 @@ var ruleEntry = &Rule{
 		out.Floors["nil_collector_call_sites"] = 2
 		return out
 	},
+}
+
+// entryBehind: the entry point of package exec that sc is, or that sc (a
+// one-block method of package path) calls once and whose results it returns.
+func (p *Prog) entryBehind(sc *ssa.Function, fns map[string]*ssa.Function) string {
+	for n, f := range fns {
+		if f == sc {
+			return n
+		}
+	}
+	if sc == nil || fnPkgPath(sc) != pkgPath || len(sc.Blocks) != 1 {
+		return ""
+	}
+	name := ""
+	var call *ssa.Call
+	for _, c := range p.allCalls(sc) {
+		for n, f := range fns {
+			if c.Call.StaticCallee() == f {
+				if call != nil {
+					return ""
+				}
+				name, call = n, c
+			}
+		}
+	}
+	if call == nil {
+		return ""
+	}
+	// the receiver's tree and the caller's own arguments go in, the results come out
+	for _, a := range call.Call.Args {
+		if _, isParam := a.(*ssa.Parameter); isParam {
+			continue
+		}
+		if _, ok := loadOfField(a, "AST"); ok {
+			continue
+		}
+		return ""
+	}
+	for _, r := range returnsOf(sc) {
+		for _, v := range r.Results {
+			if c, _ := callOf(v); c != call {
+				return ""
+			}
+		}
+	}
+	return name
 }
 
 // strictFact: facts contain a call to a parameterless bool method of
@@ -401,8 +447,8 @@ func (p *Prog) entryReturns(out *RuleOut, name string, fn *ssa.Function, ad *ssa
 	}
 	res0, errV := extractOf(ad, 0), extractOf(ad, 1)
 	seen := map[string]bool{}
-	for _, r := range returnsOf(fn) {
-		fs := factsAt(r.Instr.Block())
+	for _, r := range p.virtualReturns(fn, ad.Call.StaticCallee(), 0) {
+		fs := r.Facts
 		v, e := r.Results[0], r.Results[1]
 		isNil, notNil := nilFact(fs, errV)
 		tag := ""
@@ -413,7 +459,7 @@ func (p *Prog) entryReturns(out *RuleOut, name string, fn *ssa.Function, ad *ssa
 				tag = "failure → (zero, err)"
 			}
 		case isNil || errV == nil:
-			tag = p.entrySuccessTag(name, fn, r, res0, fs)
+			tag = p.entrySuccessTag(name, fn, RetSite{Instr: r.Instr, Results: r.Results}, res0, fs)
 		}
 		key := fmt.Sprintf("exec.%s returns (%s, %s)", name, p.shapeOf(v), p.shapeOf(e))
 		if tag == "" {
@@ -434,6 +480,100 @@ func (p *Prog) entryReturns(out *RuleOut, name string, fn *ssa.Function, ad *ssa
 			out.viol("exec."+name+" has the case: "+w, p.pos(fn.Pos()), fnName(fn), "the documented outcome '"+w+"' is no longer produced")
 		}
 	}
+}
+
+// VRet is a return of a function with the results of a small helper of the
+// package it ends in (`return helper(x)`, `return false, helper(x)`) replaced
+// by what the helper returns on each of its paths, over the caller's values.
+type VRet struct {
+	Instr   *ssa.Return
+	Results []ssa.Value
+	Facts   []Fact
+}
+
+// smallHelper: a loop-free function of at most 16 blocks.
+func smallHelper(g *ssa.Function) bool {
+	if g == nil || g.Blocks == nil || len(g.Blocks) > 16 || len(g.FreeVars) > 0 {
+		return false
+	}
+	for _, b := range g.Blocks {
+		for _, pr := range b.Preds {
+			if b.Dominates(pr) {
+				return false
+			}
+		}
+	}
+	return true
+}
+
+func (p *Prog) virtualReturns(fn, except *ssa.Function, depth int) []VRet {
+	var out []VRet
+	for _, r := range returnsOf(fn) {
+		out = append(out, p.expandVRet(fn, except, VRet{r.Instr, r.Results, factsAt(r.Instr.Block())}, depth)...)
+	}
+	return out
+}
+
+func (p *Prog) expandVRet(fn, except *ssa.Function, vr VRet, depth int) []VRet {
+	var hc *ssa.Call
+	tied := make([]int, len(vr.Results))
+	for i, v := range vr.Results {
+		tied[i] = -1
+		c, idx := callOf(v)
+		if c == nil {
+			if cc, ok := stripConv(v).(*ssa.Call); ok {
+				c, idx = cc, 0
+			}
+		}
+		if c == nil {
+			continue
+		}
+		g := c.Call.StaticCallee()
+		if g == nil || g == except || g == fn || c.Call.IsInvoke() || fnPkgPath(g) != fnPkgPath(fn) || !smallHelper(g) {
+			continue
+		}
+		if hc != nil && hc != c {
+			return []VRet{vr} // two helpers: left as it is
+		}
+		hc, tied[i] = c, idx
+	}
+	if hc == nil || depth > 2 {
+		return []VRet{vr}
+	}
+	g := hc.Call.StaticCallee()
+	var out []VRet
+	for _, gr := range expandedReturns(g) {
+		nr := VRet{Instr: vr.Instr, Results: append([]ssa.Value(nil), vr.Results...), Facts: append([]Fact(nil), vr.Facts...)}
+		ok := true
+		for i, j := range tied {
+			if j < 0 {
+				continue
+			}
+			if j >= len(gr.Results) {
+				ok = false
+				break
+			}
+			sv := substInto(hc, g, gr.Results[j], 0)
+			if sv == nil {
+				ok = false
+				break
+			}
+			nr.Results[i] = sv
+		}
+		if !ok {
+			return []VRet{vr}
+		}
+		for _, f := range gr.Facts {
+			if sv := substInto(hc, g, f.Cond, 0); sv != nil {
+				nr.Facts = append(nr.Facts, Fact{Cond: sv, Truth: f.Truth, Synth: true})
+			}
+		}
+		out = append(out, p.expandVRet(fn, except, nr, depth+1)...)
+	}
+	if len(out) == 0 {
+		return []VRet{vr}
+	}
+	return out
 }
 
 func isZero(v ssa.Value) bool {
@@ -594,6 +734,17 @@ var ruleModePred = &Rule{
 				continue
 			}
 			if b, ok := fn.Signature.Results().At(0).Type().(*types.Basic); !ok || b.Kind() != types.Bool {
+				continue
+			}
+			// a mode predicate is one that consults the path's mode at all; other
+			// parameterless tests of the Executor (`interrupted()`) are not its business
+			consults := false
+			for _, c := range p.allCalls(fn) {
+				if sc := c.Call.StaticCallee(); sc != nil && fnPkgPath(sc) == pkgAST && (sc.Name() == "IsStrict" || sc.Name() == "IsLax") {
+					consults = true
+				}
+			}
+			if !consults {
 				continue
 			}
 			n++
